@@ -39,6 +39,7 @@ type c20Case struct {
 		Kind  string `json:"kind"`
 		Comps string `json:"comps"`
 	} `json:"base"`
+	G *c20gGraph `json:"g,omitempty"` // base kind "graph": the reference graph (spec/RefGraph.tla)
 }
 
 // c20Sparse builds a sparse base (spec/Robust.tla): the root refers to component X of the kind in
@@ -226,6 +227,7 @@ const c20DupMarker = "\x00dup:"
 type c20Render struct {
 	truncateAt float64 // fraction of the rendering to keep, <0: keep all
 	noise      bool
+	lex        c20Lex // lexical operators (c20lex.go)
 }
 
 // c20Applied records, per mutation, the path of the node it was applied to (node indices are
@@ -251,6 +253,9 @@ func c20Apply(root any, m c20Mut, idx int, dir string, r *c20Render) any {
 		if s == "schemas" || s == "schema" {
 			underSchemas = true
 		}
+	}
+	if c20LexIs(m.Op) {
+		return c20LexApply(root, m.Op, n.path, len(c20Applied), &r.lex)
 	}
 	if strings.HasPrefix(m.Op, "schema_") {
 		// keyword injections go to the (index mod count)-th schema object of the document
@@ -471,7 +476,17 @@ func c20Apply(root any, m c20Mut, idx int, dir string, r *c20Render) any {
 
 var c20Msgs []any
 
-func c20Stage(f func() error) string {
+// The stage in progress is kept where the process that reports an abnormal end can find it: in memory (a hang is
+// reported by the child itself) and in a file named after the driver process (a crash is reported by the child's parent).
+var c20CurStage string
+
+func c20StageFile(driverPid int) string {
+	return filepath.Join(os.TempDir(), fmt.Sprintf("verif-c20-stage-%d", driverPid))
+}
+
+func c20Stage(name string, f func() error) string {
+	c20CurStage = name
+	os.WriteFile(c20StageFile(os.Getppid()), []byte(name), 0o644)
 	var err error
 	if p, msg := guard(func() { err = f() }); p {
 		c20Msgs = append(c20Msgs, msg)
@@ -493,6 +508,8 @@ func c20Run(c *Case) []any {
 		"internalize": "skipped", "validate_after": "skipped"}
 	line["obs"] = obs
 	c20Msgs = nil
+	c20CurStage = ""
+	os.Remove(c20StageFile(os.Getppid()))
 	defer func() {
 		if len(c20Msgs) > 0 {
 			line["msg"] = fmt.Sprint(c20Msgs[0])
@@ -510,8 +527,18 @@ func c20Run(c *Case) []any {
 	if err := dec.Decode(&root); err != nil {
 		panic(err)
 	}
-	if tc.Base.Comps != "" && tc.Base.Comps != "full" && tc.Base.Kind != "blob" {
+	if tc.Base.Comps != "" && tc.Base.Comps != "full" && tc.Base.Kind != "blob" && tc.Base.Kind != "graph" {
 		root = c20Sparse(tc.Base.Kind, tc.Base.Comps, dir)
+	}
+	rootName := "root.json"
+	if tc.Yaml {
+		rootName = "root.yaml"
+	}
+	if tc.Base.Kind == "graph" {
+		if tc.G == nil {
+			panic("harness: c20 graph case without g")
+		}
+		root = c20gBuild(*tc.G, dir, rootName)
 	}
 	r := &c20Render{truncateAt: -1}
 	c20Applied = []any{}
@@ -523,12 +550,17 @@ func c20Run(c *Case) []any {
 	if err != nil {
 		panic("harness: c20 render: " + err.Error())
 	}
-	data = []byte(strings.ReplaceAll(string(data), `"\u0000dup:`, `"`))
 	if tc.Yaml {
+		// (the duplicate of a key survives the conversion under its marked name and gets its real name in the YAML text)
 		if y, err := yaml.JSONToYAML(data); err == nil {
-			data = y
+			data = []byte(strings.ReplaceAll(string(y), `"\0dup:`, `"`))
+		} else {
+			data = []byte(strings.ReplaceAll(string(data), `"\u0000dup:`, `"`))
 		}
+	} else {
+		data = []byte(strings.ReplaceAll(string(data), `"\u0000dup:`, `"`))
 	}
+	data = c20LexRender(data, tc.Yaml, &r.lex)
 	if r.truncateAt >= 0 {
 		data = data[:int(float64(len(data))*r.truncateAt)]
 	}
@@ -546,14 +578,15 @@ func c20Run(c *Case) []any {
 		data = []byte(b)
 	}
 	line["bytes"] = len(data)
-	rootPath := filepath.Join(dir, "root.json")
-	if tc.Yaml {
-		rootPath = filepath.Join(dir, "root.yaml")
+	rootPath := filepath.Join(dir, rootName)
+	if tc.Base.Kind == "graph" {
+		// a reference from ext.json back into the root file finds it on disk under every entry point
+		os.WriteFile(rootPath, data, 0o644)
 	}
 	loader := openapi3.NewLoader()
 	loader.IsExternalRefsAllowed = tc.Allow
 	var doc *openapi3.T
-	obs["load"] = c20Stage(func() error {
+	obs["load"] = c20Stage("load", func() error {
 		var e error
 		switch tc.Entry {
 		case "data":
@@ -575,12 +608,41 @@ func c20Run(c *Case) []any {
 		}
 		return []any{line}
 	}
-	obs["validate"] = c20Stage(func() error { return doc.Validate(context.Background()) })
-	obs["marshal_json"] = c20Stage(func() error { _, e := json.Marshal(doc); return e })
-	obs["marshal_yaml"] = c20Stage(func() error { _, e := yaml.Marshal(doc); return e })
-	obs["internalize"] = c20Stage(func() error { doc.InternalizeRefs(context.Background(), nil); return nil })
+	obs["validate"] = c20Stage("validate", func() error { return doc.Validate(context.Background()) })
+	obs["marshal_json"] = c20Stage("marshal_json", func() error { _, e := json.Marshal(doc); return e })
+	obs["marshal_yaml"] = c20Stage("marshal_yaml", func() error { _, e := yaml.Marshal(doc); return e })
+	if tc.Base.Kind == "graph" {
+		// every further validator / serialiser / resolver entry point of a loaded document (spec/RefGraph.tla GStages)
+		obs["validate_enabled"] = c20Stage("validate_enabled", func() error {
+			return doc.Validate(context.Background(), openapi3.EnableSchemaFormatValidation(), openapi3.EnableSchemaPatternValidation(),
+				openapi3.EnableSchemaDefaultsValidation(), openapi3.EnableExamplesValidation(), openapi3.AllowExtensionsWithRef())
+		})
+		obs["validate_disabled"] = c20Stage("validate_disabled", func() error {
+			return doc.Validate(context.Background(), openapi3.DisableSchemaFormatValidation(), openapi3.DisableSchemaPatternValidation(),
+				openapi3.DisableSchemaDefaultsValidation(), openapi3.DisableExamplesValidation(), openapi3.ProhibitExtensionsWithRef())
+		})
+		obs["validate_parts"] = c20Stage("validate_parts", func() error { return c20ValidateParts(doc) })
+		obs["marshal_parts"] = c20Stage("marshal_parts", func() error { return c20MarshalParts(doc) })
+		obs["resolve_again"] = c20Stage("resolve_again", func() error {
+			l := openapi3.NewLoader()
+			l.IsExternalRefsAllowed = tc.Allow
+			wd, _ := os.Getwd()
+			os.Chdir(dir)
+			defer os.Chdir(wd)
+			var loc *url.URL
+			if tc.Entry != "data" {
+				loc = &url.URL{Path: rootPath}
+			}
+			return l.ResolveRefsIn(doc, loc)
+		})
+	}
+	obs["internalize"] = c20Stage("internalize", func() error { doc.InternalizeRefs(context.Background(), nil); return nil })
 	if obs["internalize"] == "ok" {
-		obs["validate_after"] = c20Stage(func() error { return doc.Validate(context.Background()) })
+		obs["validate_after"] = c20Stage("validate_after", func() error { return doc.Validate(context.Background()) })
+		if tc.Base.Kind == "graph" {
+			obs["marshal_after"] = c20Stage("marshal_after", func() error { _, e := json.Marshal(doc); return e })
+			obs["internalize_again"] = c20Stage("internalize_again", func() error { doc.InternalizeRefs(context.Background(), nil); return nil })
+		}
 	}
 	return []any{line}
 }
@@ -598,8 +660,22 @@ func init() {
 	drivers["C20"] = &Driver{Run: c20Run, PerCaseTimeoutMs: 5000, Abnormal: func(c *Case, kind string) []any {
 		var raw map[string]any
 		c.Decode(&raw)
-		return []any{map[string]any{"case": c.Idx, "c": raw, "obs": map[string]any{"load": kind, "validate": "skipped",
-			"marshal_json": "skipped", "marshal_yaml": "skipped", "internalize": "skipped", "validate_after": "skipped"}}}
+		// the stage that did not return: obs[stage] = kind; a stage after load implies that load returned a document;
+		// what the stages in between returned is lost with the process ("skipped")
+		stage := c20CurStage
+		if kind == "crash" {
+			stage = ""
+			if b, err := os.ReadFile(c20StageFile(os.Getpid())); err == nil {
+				stage = string(b)
+			}
+		}
+		obs := map[string]any{"load": "ok", "validate": "skipped",
+			"marshal_json": "skipped", "marshal_yaml": "skipped", "internalize": "skipped", "validate_after": "skipped"}
+		if stage == "" || stage == "load" {
+			stage = "load"
+		}
+		obs[stage] = kind
+		return []any{map[string]any{"case": c.Idx, "c": raw, "obs": obs, "died_in": stage}}
 	}}
 	_ = strconv.Itoa
 }
